@@ -170,6 +170,7 @@ enum Prim {
     GetFresh { sel: u16 },
     ContainsFresh { sel: u16 },
     IterAdvance { after: u8, ns: u64 },
+    BurstInvalidate { n: u32 },
 }
 
 fn expand(ops: &[Op]) -> Vec<(usize, Prim)> {
@@ -200,6 +201,7 @@ fn expand(ops: &[Op]) -> Vec<(usize, Prim)> {
             Op::GetFresh { sel } => v.push((i, Prim::GetFresh { sel })),
             Op::ContainsFresh { sel } => v.push((i, Prim::ContainsFresh { sel })),
             Op::IterAdvance { after, ns } => v.push((i, Prim::IterAdvance { after, ns })),
+            Op::BurstInvalidate { n } => v.push((i, Prim::BurstInvalidate { n })),
         }
     }
     v
@@ -856,6 +858,32 @@ impl<'a> Exec<'a> {
                     gets_in_op = n as u64;
                 }
             }
+            Prim::BurstInvalidate { n } => {
+                is_m_op = true;
+                touches_sketch = true;
+                crate::sched_hooks::reset_counters();
+                let hi = self.next_burst_key;
+                let lo = hi.saturating_sub(n).max(1_000_000);
+                let mut present = 0u64;
+                for k in lo..hi {
+                    self.sub().invalidate(k);
+                    if let Some(m) = self.keys.get_mut(&k) {
+                        if m.cur.is_some() {
+                            present += 1;
+                            m.was_invalidated = true;
+                        }
+                        m.cur = None;
+                    }
+                }
+                let c = crate::sched_hooks::counters();
+                self.stats.add("burst_ops", (hi - lo) as u64);
+                if c.try_sync_won > 0 && present >= 64 {
+                    self.stats.inc("burst_op_performed_maintenance_itself");
+                }
+                self.pred_ok = false;
+                self.burst_total += (hi - lo) as u64;
+                self.tr(format!("burst of {} invalidations of burst keys ({present} present); maintenance runs inside the burst: {}", hi - lo, c.try_sync_won));
+            }
             Prim::GetFresh { .. } | Prim::ContainsFresh { .. } => unreachable!(),
             Prim::IterAdvance { after, ns } => {
                 // one iteration held open across a clock advance: what is yielded after
@@ -1347,10 +1375,35 @@ impl<'a> Exec<'a> {
             return Ok(());
         }
         let sync = self.is_sync();
-        if window.len() > 1 || (sync && (self.cfg.ttl.is_some() || self.cfg.tti.is_some() || self.va.is_some())) {
+        if sync && (self.cfg.ttl.is_some() || self.cfg.tti.is_some() || self.va.is_some()) {
             self.pred_ok = false;
             self.stats.inc("prediction_abandoned");
             return Ok(());
+        }
+        // Windows of several operations are followed only in the one shape whose
+        // meaning does not depend on maintenance internals: the concurrent cache,
+        // nothing but inserts, all of them still queued when the explicit sync()
+        // began (so maintenance applied them in issue order in one run). A key
+        // inserted several times counts once, at its last insert, with its last
+        // weight; the excess over max_capacity is evicted once, at the end.
+        let mut eff: Vec<WindowOp> = window.to_vec();
+        if window.len() > 1 {
+            let only_inserts = window.iter().all(|w| matches!(w.prim, Prim::Insert { .. }));
+            if sync && only_inserts && self.pre.write_q == window.len() && self.pre.read_q == 0 {
+                eff.clear();
+                for (i, w) in window.iter().enumerate() {
+                    let Prim::Insert { k, .. } = w.prim else { unreachable!() };
+                    let later = window[i + 1..].iter().any(|w2| matches!(w2.prim, Prim::Insert { k: k2, .. } if k2 == k));
+                    if !later {
+                        eff.push(w.clone());
+                    }
+                }
+                self.stats.inc("batch_windows_followed");
+            } else {
+                self.pred_ok = false;
+                self.stats.inc("prediction_abandoned");
+                return Ok(());
+            }
         }
         let cap = self.cfg.cap;
         let mut rec = self.rec.clone();
@@ -1358,10 +1411,14 @@ impl<'a> Exec<'a> {
         let mut evicted: Vec<u32> = Vec::new();
         // (key, predicted admit, estimate of candidate, summed estimate of victims, victims)
         let mut decision: Option<(u32, bool, u32, u32, Vec<u32>)> = None;
+        let mut decisions: Vec<(u32, bool)> = Vec::new();
         let mut fits_newcomer: Option<u32> = None;
         let mut moved = false;
 
-        if let Some(wop) = window.first() {
+        for wop in eff.iter() {
+            if let Some(d) = &decision {
+                decisions.push((d.0, d.1));
+            }
             let m_op = matches!(wop.prim, Prim::Insert { .. } | Prim::Get { .. } | Prim::Contains { .. } | Prim::Invalidate { .. });
             if !sync && m_op {
                 for k in &wop.expired_before {
@@ -1381,6 +1438,12 @@ impl<'a> Exec<'a> {
                         }
                         rec.remove(pos);
                         rec.push((k, mw));
+                    } else if eff.len() > 1 && self.q_prev.has(k) {
+                        // A resident that was taken as a victim earlier in this same
+                        // maintenance run: the eviction removed the key's current map
+                        // entry, i.e. the very value this queued update carries, so
+                        // the update has nothing left to apply to.
+                        self.stats.inc("batch_update_of_evicted_resident_dropped");
                     } else {
                         let total: u64 = rec.iter().map(|x| x.1 as u64).sum();
                         match cap {
@@ -1434,9 +1497,12 @@ impl<'a> Exec<'a> {
                 Prim::InvalidateIf { .. } => rec.retain(|x| !wop.matched.contains(&x.0)),
                 _ => {}
             }
-            if sync {
-                Self::evict_excess(&mut rec, cap, &mut evicted);
-            }
+        }
+        if let Some(d) = &decision {
+            decisions.push((d.0, d.1));
+        }
+        if sync && !eff.is_empty() {
+            Self::evict_excess(&mut rec, cap, &mut evicted);
         }
 
         let predicted: BTreeSet<u32> = rec.iter().map(|x| x.0).collect();
@@ -1462,6 +1528,19 @@ impl<'a> Exec<'a> {
                 }
             }
             let recency: Vec<String> = self.rec.iter().map(|(k, w)| format!("k{k}(w{w},est{})", self.q_est.get(k).copied().unwrap_or(0))).collect();
+            let wrong_decision = decisions.iter().find(|d| actual.contains(&d.0) != predicted.contains(&d.0)).map(|d| d.0);
+            if eff.len() > 1 {
+                let all_ops: Vec<String> = window.iter().map(|w| format!("{:?}", w.prim)).collect();
+                if let Some(k) = wrong_decision {
+                    if self.flags.admit {
+                        viol!("C13", step, "window {all_ops:?} applied by one sync(): newcomer k{k} should be {} (estimates read after the sync; residents before, LRU->MRU: {recency:?}); expected residents {predicted:?}, actual {actual:?}", if predicted.contains(&k) { "resident" } else { "rejected" });
+                    }
+                } else if self.flags.lru {
+                    viol!("C12", step, "window {all_ops:?} applied by one sync(): residents before (LRU->MRU): {recency:?}; expected the cache to remove exactly {evicted:?} for capacity, leaving {predicted:?}, but it holds {actual:?}");
+                }
+                self.stats.inc("prediction_abandoned");
+                return Ok(());
+            }
             if let Some((k, admit, c_est, v_est, victims)) = &decision {
                 let actual_admit = actual.contains(k);
                 if *admit != actual_admit || !*admit {
